@@ -7,15 +7,15 @@ Open Scope nat_scope.
 Theorem C10_read_exact : forall n s d s',
   tail_fail (evs s) -> sock_read n s = (d, s') ->
   tail_fail (evs s') /\
-  ((n <= length (abs s) /\ d = firstn n (abs s) /\ abs s' = skipn n (abs s))
-   \/ (length (abs s) < n /\ d = [] /\ abs s' = abs s /\ chunks (evs s') = [])).
+  ((n <= length (sock_abs s) /\ d = firstn n (sock_abs s) /\ sock_abs s' = skipn n (sock_abs s))
+   \/ (length (sock_abs s) < n /\ d = [] /\ sock_abs s' = sock_abs s /\ chunks (evs s') = [])).
 Proof. exact sock_read_spec. Qed.
 Print Assumptions C10_read_exact.
 
 (* readline() returns the bytes up to and including the next LF (or all that is left) *)
 Theorem C10_readline : forall s d s',
   tail_fail (evs s) -> sock_readline s = (d, s') ->
-  tail_fail (evs s') /\ (d, abs s') = split_line (abs s).
+  tail_fail (evs s') /\ (d, sock_abs s') = split_line (sock_abs s).
 Proof. exact sock_readline_spec. Qed.
 Print Assumptions C10_readline.
 
